@@ -1474,7 +1474,14 @@ impl<R: Read> Read for Base64Decoder<R> {
         let mut out_offset = 0;
         while out_offset < out.len() {
             if self.buffer().is_empty() {
-                self.buffer_fill()?;
+                if let Err(error) = self.buffer_fill() {
+                    // bytes already copied to `out` must not be lost, error
+                    // will be reported by the next call if it persists
+                    if out_offset > 0 {
+                        return Ok(out_offset);
+                    }
+                    return Err(error);
+                }
             }
             let buffer = self.buffer();
             if buffer.is_empty() {
